@@ -11,6 +11,7 @@ import (
 	"github.com/wmnsk/go-pfcp/message"
 	"pgregory.net/rapid"
 
+	"github.com/free5gc/go-upf/internal/verif/rxwindow"
 	"github.com/free5gc/go-upf/internal/verif/stack"
 	"github.com/free5gc/go-upf/internal/verif/vcore"
 )
@@ -350,21 +351,39 @@ func report(t vcore.Failer, c Case, v *vcore.Violation) {
 	vcore.Report(t, v, c)
 }
 
+// runWindow: the real retention window (package rxwindow).
+func runWindow(t vcore.Failer, c rxwindow.Case, minimise bool) {
+	v, st := rxwindow.Run(c)
+	vcore.E.Eval()
+	vcore.E.Class("real_window")
+	if st.Unanswered > 0 {
+		vcore.E.Class("real_window:with_unanswered_request")
+		vcore.E.NonTrivial(vcore.JSON(c))
+		vcore.E.Sample("real-window", c)
+	}
+	if minimise && v != nil && !vcore.IsKnown(v.Key) {
+		key := v.Key
+		c.Evs = vcore.MinimizeSlice(c.Evs, func(evs []rxwindow.Ev) bool {
+			x, _ := rxwindow.Run(rxwindow.Case{RetransMs: c.RetransMs, MaxRetrans: c.MaxRetrans, Evs: evs})
+			return x != nil && x.Key == key
+		}, 12)
+	}
+	vcore.Report(t, v, map[string]any{"window": c})
+}
+
 func TestC06(t *testing.T) {
 	files, explicit := vcore.ReplayFiles()
 	for _, f := range files {
 		var w struct {
 			Case
-			Window *WCase `json:"window"`
+			Window *rxwindow.Case `json:"window"`
 		}
 		if err := vcore.LoadReplayCase(f, &w); err != nil {
 			t.Fatalf("replay %s: %v", f, err)
 		}
 		if w.Window != nil {
-			v, s := runWindow(*w.Window)
-			accountWindow(*w.Window, s)
 			vcore.E.Class("replayed")
-			vcore.Report(t, v, map[string]any{"window": w.Window})
+			runWindow(t, *w.Window, false)
 			continue
 		}
 		c := w.Case
@@ -416,19 +435,9 @@ func TestC06(t *testing.T) {
 	rec(nil, &idx)
 	vcore.E.SetExtra("enumerated_histories", fmt.Sprintf("all %d event sequences of length 1..%d over the 12-letter alphabet (striped over %d shard(s); this shard ran %d)", idx, depth, vcore.Cfg.Shards, count))
 
-	// (b) real retention window
+	// (b) real retention window (package rxwindow)
 	vcore.Check(t, vcore.N(30, 150), func(rt *rapid.T) {
-		c := genWindow(rt)
-		v, s := runWindow(c)
-		accountWindow(c, s)
-		if v != nil && !vcore.IsKnown(v.Key) {
-			key := v.Key
-			c.Evs = vcore.MinimizeSlice(c.Evs, func(evs []WEv) bool {
-				x, _ := runWindow(WCase{RetransMs: c.RetransMs, MaxRetrans: c.MaxRetrans, Evs: evs})
-				return x != nil && x.Key == key
-			}, 12)
-		}
-		vcore.Report(rt, v, map[string]any{"window": c})
+		runWindow(rt, rxwindow.Gen(rt), true)
 	})
 
 	// random part
